@@ -163,7 +163,7 @@ func c27PeerName(p string) string {
 }
 
 type c27Op struct {
-	Kind  string // set | del | setdef | reopen
+	Kind  string // set | del | setdef | lookup | reopen
 	Peer  string
 	Asset premium.AssetType
 	Dir   premium.OperationType
@@ -178,6 +178,8 @@ func (o c27Op) String() string {
 		return fmt.Sprintf("DeleteRate(%s,%s,%s)", c27PeerName(o.Peer), o.Asset, o.Dir)
 	case "setdef":
 		return fmt.Sprintf("SetDefaultRate(%s,%s,%d)", o.Asset, o.Dir, o.PPM)
+	case "lookup":
+		return "lookup(all rates)"
 	}
 	return "reopen"
 }
@@ -255,8 +257,8 @@ func c27Alphabet(tier string) ([]c27Op, string) {
 				}
 			}
 		}
-		ops = append(ops, c27Op{Kind: "reopen"})
-		return ops, "full alphabet: SetRate 2 peers x 2 assets x 2 directions x 3 rates, DeleteRate 2x2x2, SetDefaultRate 2x2x2 rates, reopen"
+		ops = append(ops, c27Op{Kind: "reopen"}, c27Op{Kind: "lookup"})
+		return ops, "full alphabet: lookup of all rates (a read in between), SetRate 2 peers x 2 assets x 2 directions x 3 rates, DeleteRate 2x2x2, SetDefaultRate 2x2x2 rates, reopen"
 	}
 	// quick: the (BTC,SWAP_OUT) pair fully for P and Q; the three other pairs only with one
 	// operation each way (isolation between asset/direction/peer keys).
@@ -274,7 +276,7 @@ func c27Alphabet(tier string) ([]c27Op, string) {
 		c27Op{"setdef", "", premium.BTC, premium.SwapOut, 0},
 		c27Op{"setdef", "", premium.BTC, premium.SwapOut, 4242},
 		c27Op{"setdef", "", premium.LBTC, premium.SwapIn, 4242},
-		c27Op{Kind: "reopen"})
+		c27Op{Kind: "reopen"}, c27Op{Kind: "lookup"})
 	return ops, "quick tier prunes the alphabet: (BTC,SWAP_OUT) fully for P and Q (3 rates + delete each) and both default rates; " +
 		"of the other three (asset,direction) pairs only SetRate(P,BTC,SWAP_IN,7777), SetRate(P,LBTC,SWAP_OUT,7777), " +
 		"SetRate(P,LBTC,SWAP_IN,-500), DeleteRate(P,LBTC,SWAP_IN), SetDefaultRate(LBTC,SWAP_IN,4242) (key isolation); thorough uses the full alphabet"
@@ -341,6 +343,7 @@ type c27Result struct {
 	intern   string
 	evals    int
 	sample   map[string]any
+	lookedUp bool // a lookup happened since the store was (re)opened
 }
 
 // c27Run replays prefix+op on a fresh bbolt file and judges the state after the last op.
@@ -386,7 +389,18 @@ func c27Run(dir string, store *peersync.Store, seq []c27Op) (res c27Result) {
 			if r, err = premium.NewPremiumRate(o.Asset, o.Dir, premium.NewPPM(o.PPM)); err == nil {
 				err = set.SetDefaultRate(ctx, r)
 			}
+		case "lookup":
+			res.lookedUp = true
+			// what a swap request, a poll or the getpremiumrate RPC does in between: reading must not change anything
+			for _, p := range []string{c27P, c27Q, c27R} {
+				for _, a := range c27Assets {
+					for _, d := range c27Dirs {
+						_, _ = set.GetRate(p, a, d)
+					}
+				}
+			}
 		case "reopen":
+			res.lookedUp = false
 			if err = db.Close(); err == nil {
 				db, set, err = open()
 			}
@@ -578,6 +592,10 @@ func TestC27(t *testing.T) {
 		if r.ref == nil {
 			return "", false
 		}
+		// a read in between may leave something behind in the process (a cache): states after a lookup are kept apart
+		if r.lookedUp {
+			return r.ref.key() + "|looked-up", true
+		}
 		return r.ref.key(), true
 	}
 	sequences := 0
@@ -662,5 +680,13 @@ func TestC27(t *testing.T) {
 		"peer ids are node public keys: a peer literally called \"default\" (the store's key for the global rate) is outside the alphabet",
 		"bbolt is opened with NoSync on /dev/shm; durability of bbolt itself is not examined; 'reopen' closes the file and builds a new Setting on it",
 		"policy is nil in part (c) (peer allowed, not suspicious); only the premium part of the capability message is judged")
+	if exp := os.Getenv("VERIF_C27_EXPORT"); exp != "" {
+		// another property's check (C12: "a responder charges exactly the premium of its configured rate") uses this exploration as a sub-check
+		b, _ := json.Marshal(map[string]any{"violations": rep.Violations, "states": rep.States, "executions": rep.Transitions, "internal": rep.Internal, "exhaustive": rep.Exhaustive})
+		if err := os.WriteFile(exp, b, 0o644); err != nil {
+			t.Fatal(err)
+		}
+		return
+	}
 	finishEnum(t, &rep)
 }
